@@ -110,6 +110,28 @@ def hx(v):
     return tuple(float(x).hex() for x in np.atleast_1d(np.asarray(v, dtype=float)).ravel())
 
 
+def check_reported(rec, results, free, fidx, out, label=''):
+    """g, H, BHHH, log likelihood reported = those of the likelihood AT THE REPORTED POINT on the estimation data
+    (recomputed independently: the model is the spec's, its derivatives at any point are known in closed form)"""
+    data = results.data
+    est = results.get_beta_values()
+    xv = {nm: est[nm] for nm in free}
+    xfull = [xv[nm] if nm in xv else fq(rec['start'][p]) for p, nm in enumerate(NAMES)]
+    nrows = len(C[0])
+    grow = np.array([[-2 * A[p] * (xfull[p] - C[p][r]) for p in fidx] for r in range(nrows)])
+    g_want = grow.sum(axis=0)
+    h_want = np.diag([-2.0 * A[p] * nrows for p in fidx])
+    b_want = np.einsum('ri,rj->ij', grow, grow)
+    ll_want = -sum(A[p] * sum((xfull[p] - C[p][r]) ** 2 for r in range(nrows)) for p in range(3))
+    scale = max(1.0, float(np.max(np.abs(b_want))))
+    if not close(float(data.logLike), ll_want, rel=1e-10, abs_=1e-10):
+        out.append(dict(what=label + 'reported log likelihood is not the likelihood at the reported estimates', got=float(data.logLike), want=ll_want))
+    for name, got, want in (('gradient', data.g, g_want), ('Hessian', data.H, h_want), ('BHHH', data.bhhh, b_want)):
+        got = np.asarray(got, dtype=float)
+        if got.shape != np.asarray(want).shape or not np.allclose(got, want, rtol=1e-9, atol=1e-9 * scale):
+            out.append(dict(what=label + f'reported {name} is not that of the likelihood at the estimates', got=got.tolist(), want=np.asarray(want).tolist()))
+
+
 def replay(rec):
     """estimate() with the dialogue recorded; -> dict(mismatches, trace, n)"""
     import biogeme.negative_likelihood as nl
@@ -236,23 +258,16 @@ def replay(rec):
         out.append(dict(what='final log likelihood below the initial one', got=float(data.logLike), initial=fq(rec['ll_start'])))
     if not close(float(data.initLogLike), fq(rec['ll_start']), rel=1e-12):
         out.append(dict(what='initial log likelihood', got=float(data.initLogLike), want=fq(rec['ll_start'])))
-    # g, H, BHHH reported = those of the likelihood AT THE REPORTED POINT (recomputed independently: the model is
-    # the spec's, so its derivatives at any point are known in closed form)
-    xv = {nm: est[nm] for nm in free}
-    xfull = [xv[nm] if nm in xv else fq(rec['start'][p]) for p, nm in enumerate(NAMES)]
-    nrows = len(C[0])
-    grow = np.array([[-2 * A[p] * (xfull[p] - C[p][r]) for p in fidx] for r in range(nrows)])
-    g_want = grow.sum(axis=0)
-    h_want = np.diag([-2.0 * A[p] * nrows for p in fidx])
-    b_want = np.einsum('ri,rj->ij', grow, grow)
-    ll_want = -sum(A[p] * sum((xfull[p] - C[p][r]) ** 2 for r in range(nrows)) for p in range(3))
-    scale = max(1.0, float(np.max(np.abs(b_want))))
-    if not close(float(data.logLike), ll_want, rel=1e-10, abs_=1e-10):
-        out.append(dict(what='reported log likelihood is not the likelihood at the reported estimates', got=float(data.logLike), want=ll_want))
-    for label, got, want in (('gradient', data.g, g_want), ('Hessian', data.H, h_want), ('BHHH', data.bhhh, b_want)):
-        got = np.asarray(got, dtype=float)
-        if got.shape != np.asarray(want).shape or not np.allclose(got, want, rtol=1e-9, atol=1e-9 * scale):
-            out.append(dict(what=f'reported {label} is not that of the likelihood at the estimates', got=got.tolist(), want=np.asarray(want).tolist()))
+    check_reported(rec, results, free, fidx, out)
+    if rec['algo'] in ('simple_bounds', 'scipy'):
+        # with bootstrap: the reported figures still refer to the estimation data, not to a re-sample
+        b3, _, _ = build(rec)
+        b3.bootstrap_samples = 4
+        r3 = b3.estimate(run_bootstrap=True)
+        n += 1
+        check_reported(rec, r3, free, fidx, out, 'with bootstrap: ')
+        if r3.data.bootstrap is None or np.asarray(r3.data.bootstrap).shape != (4, len(free)):
+            out.append(dict(what='with bootstrap: replications matrix', got=None if r3.data.bootstrap is None else list(np.asarray(r3.data.bootstrap).shape)))
     # recomputed through the library as well
     b2, _, _ = build(rec)
     n += 1
